@@ -30,7 +30,8 @@ The model describes the code AFTER the repairs D-C11-1 (`next` on a running rout
 refused), D-C11-2 (`reset` forgets the terminal value) and D12 (one pending scheduler entry per
 routine).
 Abstracted: the scheduler queue is the stable sorted list C09 proves `TaskQueue` to be;
-only `SystemClock` exists (time = `Int` ticks); values are a small enum.
+time = `Int` ticks; routines play on SystemClock or on ONE other clock object per case (a TempoClock of
+tempo 1 or AppClock: same logical time, different `_clock` identity); values are a small enum.
 Core Lean only (loaded by the driver).
 -/
 namespace Sc3Verif.C11
@@ -125,7 +126,7 @@ deriving Repr, Inhabited
 
 /-- What the bottom of the Python call stack is doing. -/
 inductive Ext where
-  | idle | next | tick (t : Int) (r : Nat)
+  | idle | next | tick (t : Int) (key : Nat)
 deriving Repr, DecidableEq, Inhabited
 
 structure M where
@@ -140,6 +141,9 @@ structure M where
   fvs : Nat → FV := fun _ => {}
   log : List Ev := []              -- newest first
   out : Option Res := none         -- outcome of the last external `next`
+  clk : Nat → Bool := fun _ => false   -- `_clock` of each routine: `false` = SystemClock (the default),
+                                       -- `true` = the other clock object of the case (a TempoClock(1) / AppClock)
+  extClock : Bool := false         -- which clock the outside passes to `play(clock)`
 
 instance : Inhabited M := ⟨{}⟩
 
@@ -170,9 +174,25 @@ def insertQ (e : Int × Nat) : List (Int × Nat) → List (Int × Nat)
 def enqueue (e : Int × Nat) (q : List (Int × Nat)) : List (Int × Nat) :=
   insertQ e (q.filter fun x => x.2 != e.2)
 
-/-- NRT `SystemClock.sched(0, r)` called by the current thread. -/
-def M.sched (m : M) (r : Nat) : M :=
-  { m with queue := enqueue (m.secsOf m.cur, r) m.queue }
+/-- Key of a scheduler entry: the pair (routine, clock object); `ClockScheduler` keeps one pending entry per
+    (clock, task).  All NRT clocks feed the one queue and read the same logical time (the other clock is a
+    TempoClock of tempo 1 or AppClock), so only the identity of the clock matters. -/
+def qkey (r : Nat) (alt : Bool) : Nat := 2 * r + (if alt then 1 else 0)
+
+def M.setClk (m : M) (r : Nat) (b : Bool) : M :=
+  { m with clk := fun i => if i = r then b else m.clk i }
+
+/-- The clock `play()` uses when none is given: the current thread's `_clock`; the outside passes one. -/
+def M.playClock (m : M) : Bool :=
+  match m.cur with
+  | .rt c => m.clk c
+  | _ => m.extClock
+
+def M.schedKey (m : M) (key : Nat) : M :=
+  { m with queue := enqueue (m.secsOf m.cur, key) m.queue }
+
+/-- NRT `r._clock.sched(0, r)` called by the current thread. -/
+def M.sched (m : M) (r : Nat) : M := m.schedKey (qkey r (m.clk r))
 
 def M.schedAll (m : M) : List Nat → M
   | [] => m
@@ -198,7 +218,7 @@ def M.applyRop (m : M) (r : Nat) (o : ROp) : M × Bool :=
   match o with
   | .play =>
     if R.state = .init ∨ R.state = .paused then
-      ((m.setRt r { R with state := .suspended }).sched r, false)
+      (((m.setRt r { R with state := .suspended }).setClk r m.playClock).sched r, false)
     else (m, false)
   | .pause =>
     if R.state = .running then (m, true)
@@ -211,10 +231,10 @@ def M.applyRop (m : M) (r : Nat) (o : ROp) : M × Bool :=
     else (m, false)
   | .stop =>
     if R.state = .running then (m, true)
-    else (m.setRt r { R with pc := none, last := .none, state := .done }, false)
+    else ((m.setRt r { R with pc := none, last := .none, state := .done }).setClk r false, false)
   | .reset =>
     if R.state = .running then (m, true)
-    else (m.setRt r { R with pc := none, terminal := none, state := .init }, false)
+    else ((m.setRt r { R with pc := none, terminal := none, state := .init }).setClk r false, false)
 
 /-- `Condition.signal` body once the test is known to be true / `unhang`. -/
 def M.releaseCond (m : M) (c : Nat) : M :=
@@ -277,6 +297,10 @@ def M.exit (m : M) (r : Nat) (R : Rt) (res : Res) : M :=
   { m.setRt r { R with parent := .nil } with
     cur := R.parent, stack := m.stack.tail, pending := some res }
 
+/-- `exit` through the `except StopStream:` / `except StopIteration:` clauses, which also put `_clock` back
+    to SystemClock. -/
+def M.exitRc (m : M) (r : Nat) (R : Rt) (res : Res) : M := (m.exit r R res).setClk r false
+
 /-- An exception `e` surfaces in the body of the innermost routine `r` and is not caught. -/
 def M.raiseIn (m : M) (r : Nat) (R : Rt) (e : Exc) : M :=
   if R.isGen then
@@ -285,7 +309,7 @@ def M.raiseIn (m : M) (r : Nat) (R : Rt) (e : Exc) : M :=
     m.exit r { R with state := .done } (.exc e')
   else
     match e with
-    | .stop | .paused => m.exit r { R with pc := none, last := .none, state := .done } (.exc e)
+    | .stop | .paused => m.exitRc r { R with pc := none, last := .none, state := .done } (.exc e)
     | _ => m.exit r { R with pc := none, state := .done } (.exc e)
 
 /-- The body yields `v` while standing at action `k`. -/
@@ -300,7 +324,7 @@ def M.execAct (m : M) (r : Nat) (R : Rt) (k : Nat) : M :=
   match R.script[k]? with
   | none =>
     if R.isGen then
-      m.exit r { R with pc := none, last := .none, state := .done } (.exc .stop)
+      m.exitRc r { R with pc := none, last := .none, state := .done } (.exc .stop)
     else
       m.exit r { R with pc := none, terminal := some .none, state := .done, last := .none } (.val .none)
   | some a =>
@@ -366,10 +390,10 @@ def M.handleReturn (m : M) (r : Nat) (R : Rt) (k : Nat) (res : Res) : M :=
   | _ => m0
 
 /-- `ClockTask._wakeup` after `__awake__` returned / raised. -/
-def M.finishTick (m : M) (t : Int) (r : Nat) (res : Res) : M :=
+def M.finishTick (m : M) (t : Int) (key : Nat) (res : Res) : M :=
   let m0 := { m with pending := none, ext := .idle, out := some res }
   match res with
-  | .val (.num d) => { m0 with queue := enqueue (t + d, r) m0.queue }
+  | .val (.num d) => { m0 with queue := enqueue (t + d, key) m0.queue }
   | _ => m0
 
 /-- One small step.  Idle machines do not move. -/
@@ -382,7 +406,7 @@ def M.step (m : M) : M :=
       match m.ext with
       | .idle => m
       | .next => { m with pending := none, ext := .idle, out := some res }
-      | .tick t r => m.finishTick t r res
+      | .tick t key => m.finishTick t key res
   | r :: _ =>
     let R := m.rt r
     match R.pc with
@@ -415,8 +439,9 @@ def M.inject (m : M) (x : XOp) : M :=
   | .tick =>
     match m.queue with
     | [] => m
-    | (t, r) :: q =>
-      ({ m with queue := q, mainSecs := t, ext := .tick t r }).callNext r (.tup r)
+    | (t, key) :: q =>
+      -- the popped ClockTask wakes its routine (`key / 2`) and, if re-queued, keeps its clock (`key`)
+      ({ m with queue := q, mainSecs := t, ext := .tick t key }).callNext (key / 2) (.tup (key / 2))
   | .rop r o =>
     let (m', refused) := m.applyRop r o
     { m' with out := some (if refused then .exc .routine else .val .none) }
